@@ -4,7 +4,7 @@ from facts import walk, short, pp
 import hirutil as H
 
 LEVEL = 'other'
-TECHNIQUE = 'index-kind agreement by value provenance (tuple slots through call returns), writer/reader field-to-attribute tables, sibling mirror cross-check of the row/column and LeftToRight/TopToBottom branches'
+TECHNIQUE = 'index-kind agreement by value provenance (tuple slots through call returns), writer/reader field-to-attribute tables, sibling mirror cross-check of the row/column and LeftToRight/TopToBottom branches + shared None=>diagnosed obligations of the attachment readers, store/guard shape of the per-index lists'
 LEVEL_TEXT = ('Decides the agreement conditions without which no layout can be right: every per-row array is indexed by a value that '
               'originates in the row slot of the cursor (and per-column by the column slot), written by the accessor of the same '
               'attached property and serialized under the attribute of the same name and the same field; item row/column/span/alignment '
